@@ -32,8 +32,9 @@ LEVEL_NOTE = ("PARTIAL: only the EDS parser and the RDS weighted-cluster branch 
               "accepted ClusterUpdate include: LB policy JSON parses in the LB registry, and a ring_hash policy has minRingSize <= "
               "maxRingSize <= 8388608 (finding F35, a legacy RING_HASH cluster with out-of-bounds sizes was accepted, is fixed in /repo "
               "by e491411; reverting it makes the check fail again). The ring sizes are judged as the ring_hash parser reads them (0 = "
-              "unset: min 1024, max 4096): the residual F35b — an explicit minimum_ring_size 0 with maximum_ring_size < 1024 is still "
-              "accepted and later rejected by the parser — is a known finding.")
+              "unset: min 1024, max 4096): the residual F35b — an explicit minimum_ring_size 0 with maximum_ring_size < 1024 was "
+              "accepted and later rejected by the parser — is fixed in /repo by db88f2a; the whole grid of unset / explicit boundary ring "
+              "sizes (144 combinations) is run in every tier, and on a tree without either fix the quick tier reports the violation.")
 GAP = "CDS/LDS/RDS-route validators not modelled; proto.Unmarshal trusted; no-panic is observed, not proved"
 ASSUMPTIONS = ["proto uint32 fields are < 2^32 (typing hypothesis of the theorem)", "fmt %q is injective on strings",
                "net.JoinHostPort brackets exactly the hosts containing ':'"]
@@ -149,6 +150,9 @@ def gen(rng, tier):
         kind = rng.choice(["rds", "rds", "cds", "lds", "lds"])
         nmut = rng.choice([0, 0, 0, 0, 1, 1, 2, 3])
         ops.append("gen %s %d %d %d" % (kind, rng.randrange(1, 2**40), rng.randrange(1, 4), nmut))
+    # CDS: the whole grid of unset / explicit boundary ring sizes of a legacy RING_HASH cluster (harness: ringCluster)
+    for i in range(144):
+        ops.append("gen cds 1 %d 0" % (100 + i))
     # RDS weighted clusters
     W = [0, 0, 1, 1, 2, 3, 50, 2**31, 2**31 - 1, M32, M32 - 1, M32 - 2]
     ops.append("wc -")
